@@ -68,8 +68,8 @@ def vc (H : Graph) (llr : List Rat) (M : Msgs) (cl : Rat) (c j : Nat) : Rat :=
 /-- one flooding round with check rule `rule` (applied to the other edges of the check) -/
 def step (rule : List Rat → Rat) (H : Graph) (llr : List Rat) (cl : Rat) (M : Msgs) : Msgs :=
   (List.range H.length).map fun c =>
-    (List.range (deg H c)).map fun j =>
-      rule (((List.range (deg H c)).map fun j' => vc H llr M cl c j').eraseIdx j)
+    let ins := (List.range (deg H c)).map fun j' => vc H llr M cl c j'
+    (List.range (deg H c)).map fun j => rule (ins.eraseIdx j)
 
 def zeroMsgs (H : Graph) : Msgs := H.map fun row => row.map fun _ => 0
 
